@@ -3842,6 +3842,14 @@ PPL::Polyhedron::topological_closure_assign() {
     return;
   }
 
+  // Relaxing the strict inequalities is only correct for a non-empty
+  // polyhedron: the closure of an empty polyhedron that has not been
+  // detected as such (e.g., `x > 0, x < 0') is empty.
+  if (!has_pending_generators() && constraints_are_up_to_date()
+      && !constraints_are_minimized() && is_empty()) {
+    return;
+  }
+
   // Use constraints only if they are available and
   // there are no pending generators.
   if (!has_pending_generators() && constraints_are_up_to_date()) {
